@@ -74,7 +74,7 @@ func runChildren(bin string, dir string, tag string, scs []Scenario, watchdogSec
 			bad++
 			continue
 		}
-		if ended >= 0 && (oc.results[ended].Hang || oc.results[ended].Leaked > 0) && ended+1 < len(scs) {
+		if ended >= 0 && oc.results[ended].Hang && ended+1 < len(scs) {
 			start = ended + 1
 			bad += 2
 			continue
